@@ -23,8 +23,7 @@ impl Encoder<Box<dyn Socks5Message>> for Socks5ClientEncoder {
     type Error = anyhow::Error;
 
     fn encode(&mut self, mut item: Box<dyn Socks5Message>, dst: &mut BytesMut) -> Result<()> {
-        item.encode(dst);
-        Ok(())
+        item.encode(dst)
     }
 }
 
@@ -34,8 +33,7 @@ impl Encoder<Box<dyn Socks5Message>> for Socks5ServerEncoder {
     type Error = anyhow::Error;
 
     fn encode(&mut self, mut item: Box<dyn Socks5Message>, dst: &mut BytesMut) -> Result<()> {
-        item.encode(dst);
-        Ok(())
+        item.encode(dst)
     }
 }
 
@@ -156,7 +154,7 @@ impl Encoder<DatagramPacket> for Socks5UdpCodec {
 
     fn encode(&mut self, item: DatagramPacket, dst: &mut BytesMut) -> Result<(), Self::Error> {
         dst.extend_from_slice(&[0, 0, 0]); // Fragment
-        address::encode(&item.1, dst);
+        address::encode(&item.1, dst)?;
         dst.extend_from_slice(&item.0);
         Ok(())
     }
